@@ -37,7 +37,12 @@ def convergenceFail (tz : Int) (files : List FileJ) (pems : List PemJ) (ranks : 
       else if pj.key.isNone && pj.csr.isNone then fail := some s!"C12: entity {e.alias_} has no key material after the default run"
       else if pj.hash.isSome then
         -- produced by gopki: must reflect the current effective configuration and chain to the issuer's current certificate
-        match Db.validateAndMerge s e.alias_, pj.cert with
+        -- `time.Now()` of the parse that preceded this certificate's generation (its configuration's and its
+        -- profile's, from which a run-relative validity may be inherited) is observed through its notBefore
+        let sAt := match certOf e.configPath with
+          | some c => (importState tz files pems ranks keys (fun _ _ => c.tbs.notBefore)).1
+          | none => s
+        match Db.validateAndMerge sAt e.alias_, pj.cert with
         | .ok eff, some cj =>
           let wantHash := ((Hash.hashSum eff tz).map fun h => (String.fromUTF8? ⟨(B64.enc h).toArray⟩).getD "")
           if pj.hash != wantHash then fail := some "C12: a certificate gopki produced does not reflect its current configuration (stored hash differs)"
@@ -107,6 +112,8 @@ def opHist : OpFn := fun view inp out => do
   let mut corrDetail : Json := Json.null
   let mut runs : Nat := 0
   let mut faulted : Nat := 0
+  let mut constrained : Nat := 0            -- runs over a directory with a subject-constraining profile
+  let mut rejected : Nat := 0               -- runs the model expects to stop at validation
   let mut prevRun : Option Nat := none      -- flags of the directly preceding successful run
   let n := stepsIn.length
   let mut i : Nat := 0
@@ -121,6 +128,8 @@ def opHist : OpFn := fun view inp out => do
       if fault.isSome then faulted := faulted + 1
       let o : RunObs ← fromJson? so
       let v := replayRun tz files strat fault prePems postPems preRanks keys o
+      if hasSubjectConstraint files then constrained := constrained + 1
+      if v.branch == "plan:validate" then rejected := rejected + 1
       if !v.corr && corr then
         corr := false; corrClause := s!"step {i}: {v.clause}"; corrDetail := v.detail
       if !v.spec then fails := fails ++ [(v.clause, v.feat, v.detail)]
@@ -151,7 +160,8 @@ def opHist : OpFn := fun view inp out => do
   let seen := fails.find? fun (c, _, _) => viewAccepts view c
   pure { corr := corr, spec := seen.isNone,
          clause := match seen with | some (c, _, _) => c | none => (if corrClause != "" then corrClause else (fails.head?.map (·.1)).getD ""),
-         nontrivial := runs ≥ 3, branch := s!"runs{runs}" ++ (if faulted > 0 then "+fault" else ""),
+         nontrivial := if view == "C09" then constrained > 0 else runs ≥ 3,
+         branch := s!"runs{runs}" ++ (if faulted > 0 then "+fault" else "") ++ (if rejected > 0 then "+rejected" else if constrained > 0 then "+constrained" else ""),
          model := match seen with | some (_, _, d) => d | none => corrDetail,
          feat := match seen with | some (_, f, _) => f | none => Json.mkObj [] }
 
